@@ -44,6 +44,23 @@ def outcome(fn, *a, **kw):
         return ("err", base_of(e), type(e).__name__)
 
 
+def show(o) -> str:
+    """Crash-proof description of an outcome / value for replay files (never calls repr on bintime values)."""
+    try:
+        if isinstance(o, tuple) and len(o) >= 2 and o[0] == "ok":
+            v = o[1]
+            if hasattr(v, "ticks"):
+                return f"ok {type(v).__name__}(ticks={v.ticks})"
+            return f"ok {v!r}"
+        if isinstance(o, tuple) and o and o[0] == "err":
+            return "raised " + "/".join(o[1:])
+        if hasattr(o, "ticks"):
+            return f"{type(o).__name__}(ticks={o.ticks})"
+        return repr(o)
+    except Exception as e:  # noqa: BLE001
+        return f"<unprintable {type(o).__name__}: {type(e).__name__}>"
+
+
 def render_outcome(o, raises: bool = True) -> str:
     """Text the Lean driver prints for `Except PyErr α` (raises=True) or a plain value."""
     if o[0] == "ok":
